@@ -7,6 +7,8 @@ use std::collections::HashMap;
 
 thread_local! {
     static INPUTS: RefCell<HashMap<u32, u32>> = RefCell::new(HashMap::new());
+    static INPUTS64: RefCell<HashMap<u32, u64>> = RefCell::new(HashMap::new());
+    static OUT64: RefCell<Vec<(u32, u64)>> = RefCell::new(Vec::new());
     static MEM: RefCell<HashMap<u32, u8>> = RefCell::new(HashMap::new());
     static DEFAULT: RefCell<u8> = RefCell::new(0);
     static OUT: RefCell<Vec<(u32, u32)>> = RefCell::new(Vec::new());
@@ -16,6 +18,14 @@ thread_local! {
 #[no_mangle]
 pub extern "C" fn verif_in(idx: u32) -> u32 {
     INPUTS.with(|m| *m.borrow().get(&idx).unwrap_or(&0))
+}
+#[no_mangle]
+pub extern "C" fn verif_in64(idx: u32) -> u64 {
+    INPUTS64.with(|m| *m.borrow().get(&idx).unwrap_or(&0))
+}
+#[no_mangle]
+pub extern "C" fn verif_out64(idx: u32, value: u64) {
+    OUT64.with(|o| o.borrow_mut().push((idx, value)));
 }
 #[no_mangle]
 pub extern "C" fn verif_out(idx: u32, value: u32) {
@@ -44,6 +54,9 @@ fn main() {
             "in" => INPUTS.with(|m| {
                 m.borrow_mut().insert(p[1].parse().unwrap(), p[2].parse::<u64>().unwrap() as u32);
             }),
+            "in64" => INPUTS64.with(|m| {
+                m.borrow_mut().insert(p[1].parse().unwrap(), p[2].parse::<u64>().unwrap());
+            }),
             "mem" => MEM.with(|m| {
                 m.borrow_mut().insert(p[1].parse().unwrap(), p[2].parse().unwrap());
             }),
@@ -56,6 +69,11 @@ fn main() {
     OUT.with(|o| {
         for (i, v) in o.borrow().iter() {
             println!("out {} {}", i, v);
+        }
+    });
+    OUT64.with(|o| {
+        for (i, v) in o.borrow().iter() {
+            println!("out64 {} {}", i, v);
         }
     });
     STORES.with(|s| {
